@@ -35,14 +35,19 @@ def make(target=None, counts_file=".counts.json"):
 
         st = {"armed": False, "counts": collections.Counter(), "fired": False}
 
+        targets = [] if target is None else ([target] if isinstance(target[0], str) else list(target))
+        st["fired_n"] = 0
+
         def hit(b):
             if not st["armed"]:
                 return None
             n = st["counts"][b]
             st["counts"][b] += 1
-            if target is not None and not st["fired"] and target[0] == b and target[1] == n:
-                st["fired"] = True
-                return target[2]
+            for t in targets:
+                if t[0] == b and t[1] == n:
+                    st["fired"] = True
+                    st["fired_n"] += 1
+                    return t[2]
             return None
 
         def die():
@@ -180,7 +185,7 @@ def make(target=None, counts_file=".counts.json"):
             def pytest_unconfigure(self, config):
                 st["armed"] = False
                 with real_open(counts_file, "w") as f:
-                    json.dump({"counts": dict(st["counts"]), "fired": st["fired"]}, f)
+                    json.dump({"counts": dict(st["counts"]), "fired": st["fired"], "fired_n": st["fired_n"]}, f)
 
         return Plugin()
 
